@@ -21,12 +21,14 @@ fn free_tcp_port() -> u16 {
     TcpListener::bind("127.0.0.1:0").unwrap().local_addr().unwrap().port()
 }
 
-pub fn run_scenario(batch: u8, hc: bool, per_client: bool, steps: &[String]) -> String {
+pub fn run_scenario(batch: u8, hc: bool, per_client: bool, slow: bool, steps: &[String]) -> String {
     let steps = steps.to_vec();
-    on_named_thread("worker-0", move || {
+    // slow log sink at level debug: every third record takes 30 ms to write (a worker stalled INSIDE a call)
+    crate::rig::set_stall(if slow { 3 } else { 0 }, 30);
+    let r = on_named_thread("worker-0", move || {
         let nclients = 4;
         let hc_port = if hc { Some(free_tcp_port()) } else { None };
-        let cfg = RigCfg { seed: vec![7u8; 32], batch, fault: 0, per_client, level: "off".into(), status: None };
+        let cfg = RigCfg { seed: vec![7u8; 32], batch, fault: 0, per_client, level: if slow { "debug".into() } else { "off".into() }, status: None };
         let mut rig = match guarded(|| Rig::new_hc(cfg, nclients, hc_port)) {
             Some(r) => r,
             None => return "newpanic=1".to_string(),
@@ -94,7 +96,10 @@ pub fn run_scenario(batch: u8, hc: bool, per_client: bool, steps: &[String]) -> 
             }
         }
         format!("panic={} obs={}", if panicked { 1 } else { 0 }, if obs.is_empty() { "-".to_string() } else { obs.join(",") })
-    })
+    });
+    crate::rig::set_stall(0, 0);
+    crate::rig::set_level("off");
+    r
 }
 
 fn emit(out: &mut Out, batch: u8, hc: bool, per_client: bool, tag: &str, steps: Vec<String>) {
@@ -103,7 +108,7 @@ fn emit(out: &mut Out, batch: u8, hc: bool, per_client: bool, tag: &str, steps: 
         return;
     }
     let cfg = format!("batch={},hc={},pc={},tag={}", batch, hc as u8, per_client as u8, tag);
-    let imp = run_scenario(batch, hc, per_client, &steps);
+    let imp = run_scenario(batch, hc, per_client, tag.starts_with("slowlog"), &steps);
     out.case("loop", &[&cfg, &steps.join(" ")], &imp);
 }
 
@@ -141,6 +146,13 @@ pub fn run(ctx: &Ctx) {
             tail(&mut steps, n, b);
             emit(&mut out, b, false, false, &format!("burst{}", n), steps);
         }
+    }
+    // 1b. a worker stalled inside a call (slow log sink): several non-draining batches, each response logs one record
+    for &(b, n) in if ctx.thorough { &[(1u8, 20usize), (2, 40), (3, 30), (2, 70)][..] } else { &[(1u8, 12usize), (2, 36)][..] } {
+        let mut steps = vec![];
+        sends(&mut rng, n, &mut steps, true);
+        tail(&mut steps, n, b);
+        emit(&mut out, b, false, false, &format!("slowlog{}", n), steps);
     }
     // 2. arrivals between calls while a backlog exists; edge without data; idle calls in between
     let rounds = if ctx.thorough { 60 } else { 16 };
@@ -191,6 +203,6 @@ pub fn replay_one(out: &mut Out, args: &[&str]) {
     install_logger();
     let kv: std::collections::HashMap<&str, &str> = args[0].split(',').filter_map(|x| x.split_once('=')).collect();
     let steps: Vec<String> = args[1].split(' ').filter(|s| !s.is_empty()).map(|s| s.to_string()).collect();
-    let imp = run_scenario(kv["batch"].parse().unwrap(), kv["hc"] == "1", kv["pc"] == "1", &steps);
+    let imp = run_scenario(kv["batch"].parse().unwrap(), kv["hc"] == "1", kv["pc"] == "1", kv.get("tag").map(|t| t.starts_with("slowlog")).unwrap_or(false), &steps);
     out.case("loop", &[args[0], args[1]], &imp);
 }
